@@ -393,6 +393,15 @@ class Parser:
             if x.text == "for":
                 self.next()
                 self.expect("(")
+                save = self.i
+                ty = self.try_type()
+                if ty is not None and self.peek().kind == "id" and self.at(":", 1):
+                    name = self.next().text
+                    self.next()
+                    rng = self.expr()
+                    self.expect(")")
+                    return ("rangefor", ty, name, rng, self.statement(), line)
+                self.i = save
                 init = self.try_declaration()
                 if init is None:
                     init = ("expr", self.expr(), line)
@@ -919,6 +928,8 @@ class Exec:
             return self.try_stmt(s)
         if k == "for":
             return self.for_stmt(s)
+        if k == "rangefor":
+            return self.rangefor_stmt(s)
         self.err(0, "statement kind %s" % k)
 
     def body_list(self, s):
@@ -973,11 +984,28 @@ class Exec:
               and b[0][1][2][2] == ("id", init[2]))
         if not ok:
             self.err(line, "for loop is not the identity-index fill")
-        target = b[0][1][2][1]
+        if cond[0] != "bin":
+            self.err(line, "for condition")
+        self.identity_fill(b[0][1][2][1], line)
+
+    def identity_fill(self, target, line):
+        """`target` (a declared index vector) now holds 0, 1, …, size-1"""
         if target[0] != "id" or self.lookup_var(target[1]) is None:
-            self.err(line, "for loop target")
-        self.set_var(target[1], ("app", "identity_indices", [self.ev(cond[3], line)]) if cond[0] == "bin" else
-                     self.err(line, "for condition"))
+            self.err(line, "identity fill of an unknown vector")
+        old = self.lookup_var(target[1])
+        size = old[2] if old[0] == "app" and len(old) > 2 and len(old[2]) == 1 else [("sym", "size")]
+        self.set_var(target[1], ("app", "identity_indices", list(size)))
+
+    def rangefor_stmt(self, s):
+        _, ty, name, rng, body, line = s
+        # only `T next = 0; for (auto& x : v) x = next++;` (identity index vector of the precompute branch)
+        b = self.body_list(body)
+        ok = (len(b) == 1 and b[0][0] == "expr" and b[0][1][0] == "assign" and b[0][1][1] == "=" and b[0][1][2] == ("id", name)
+              and b[0][1][3][0] == "post" and b[0][1][3][1] == "++" and b[0][1][3][2][0] == "id"
+              and self.lookup_var(b[0][1][3][2][1]) == ("lit", "int", "0") and "&" in ty)
+        if not ok:
+            self.err(line, "range-for loop is not the identity-index fill")
+        self.identity_fill(rng, line)
 
     def decl(self, s):
         _, ty, name, kind, init, line = s
@@ -1099,6 +1127,11 @@ class Exec:
                     self.err(line, "srand argument")
                 self.seeding = "time"
                 return
+            if f in (("id", "std::iota"), ("id", "iota")) and len(e[2]) == 3 and e[2][2] == ("num", "0", "") \
+                    and e[2][0][0] == "call" and e[2][0][1][0] == "member" and e[2][0][1][2] == "begin" \
+                    and e[2][1][0] == "call" and e[2][1][1][0] == "member" and e[2][1][1][2] == "end" \
+                    and e[2][0][1][1] == e[2][1][1][1]:
+                return self.identity_fill(e[2][0][1][1], line)
             if f == ("id", "write_matrix") and len(e[2]) == 3:
                 what, st, delim = [self.ev(a, line) for a in e[2]]
                 if st[0] != "stream" or st[1] != "out":
@@ -1341,6 +1374,18 @@ def lib_tables(repo, defines):
     if len(kws) < 10:
         raise TranslateError("%s: keyword definitions not found" % path)
     kws = [(a, b, c, defaults_alias.get(d, d)) for a, b, c, d in kws]
+    # documented defaults: the doc comment in front of each keyword ("Default value is 5." / "Default is 1e-9.");
+    # comments are documentation, so a keyword without such a sentence simply has no documented default ("")
+    raw = open(path).read()
+    docdefaults = []
+    for ident, _, _, _ in kws:
+        m = re.search(r"/\*\*((?:(?!\*/).)*?)\*/\s*const\s+stichwort::ParameterKeyword<[^;]*?>\s+%s\s*\(" % re.escape(ident), raw, re.S)
+        text = ""
+        if m:
+            d = re.search(r"Default(?:\s+value)?\s+is\s+([-+0-9.eE]+?)[.;]?(?:\s|$)", re.sub(r"\s*\n\s*\*\s?", " ", m.group(1)))
+            if d:
+                text = d.group(1)
+        docdefaults.append((ident, text))
     # defaults.hpp
     path = os.path.join(inc, "parameters", "defaults.hpp")
     src, _ = preprocess(open(path).read(), path, defines)
@@ -1352,7 +1397,7 @@ def lib_tables(repo, defines):
             dfl.append(toks[i + 2].text)
     if not dfl:
         raise TranslateError("%s: defaults set not found" % path)
-    return consts, traits, kws, dfl
+    return consts, traits, kws, dfl, docdefaults
 
 
 # --------------------------------------------------------------------------------------------- Lean emission
@@ -1511,7 +1556,7 @@ def extract(repo=None):
         if n is None:
             raise TranslateError("main.cpp: catch block of main() not understood")
         main_catch.append((re.sub(r"\s+", " ", what).strip(), n))
-    consts, traits, kws, dfl = lib_tables(repo, defines)
+    consts, traits, kws, dfl, docdefaults = lib_tables(repo, defines)
 
     o = []
     o.append("/- GENERATED by tools/translate_cli.py from src/cli/main.cpp, src/cli/util.hpp, defines/keywords.hpp,")
@@ -1561,6 +1606,9 @@ def extract(repo=None):
     o.append("def libKeywords : List KeywordRow := " + llist(
         ["{ ident := %s, cppType := %s, display := %s, default := %s }" % tuple(lstr(x) for x in k) for k in kws]))
     o.append("")
+    o.append("/-- the default each keyword's doc comment in defines/keywords.hpp documents (numeric ones; \"\" = none stated) -/")
+    o.append("def libDocDefaults : List (String × String) := [%s]" % ", ".join("(%s, %s)" % (lstr(a), lstr(b)) for a, b in docdefaults))
+    o.append("")
     o.append("/-- keywords present in `tapkee_internal::defaults` (merged into every parameter set by embed()) -/")
     o.append("def libDefaults : List String := [%s]" % ", ".join(lstr(d) for d in dfl))
     o.append("")
@@ -1571,7 +1619,7 @@ def extract(repo=None):
         "wiring": ex.wiring, "steps": ex.steps, "main_catch": main_catch,
         "maps": {name: [(k, v.split("::")[-1]) for k, v in entries] for name, (_, entries) in umaps.items()},
         "double_defaults_via": double_defaults_via, "read_loop_rereads": rereads,
-        "consts": consts, "traits": traits, "keywords": kws, "defaults": dfl, "defines": sorted(defines),
+        "consts": consts, "traits": traits, "keywords": kws, "defaults": dfl, "doc_defaults": dict(docdefaults), "defines": sorted(defines),
     }
 
 
